@@ -24,6 +24,7 @@ void     nixsym_unreached(const char *msg);
 void     nixsym_trace_u64(const char *name, uint64_t v);
 void     nixsym_trace_f64(const char *name, double v);
 void     nixsym_trace_str(const char *name, const char *v);
+void     nixsym_finding(const char *id, bool cond);
 void     nixsym_print(const char *msg);
 uint64_t nixsym_concretize_u64(const char *name, uint64_t v, uint32_t maxvals);
 #ifdef __cplusplus
